@@ -42,6 +42,9 @@ def _rules():
         ("INCREMENTAL-RESET of un-trailed propagator state", C17.l20),
         ("backtrack resets the notified-trail mark", C01.s17),
         ("no Constraint::post / implied_by returns Ok(()) without posting", C01.s18),
+        ("eager reasons select by position only", C17.l22),
+        ("buffered lazy explanations are rebuilt on every call", C17.l23),
+        ("tasks leave a resource profile only where a mandatory part is undone", C17.l24),
         ("each public variable constructor reaches exactly one engine constructor", C01.s19),
         ("decision-level bookkeeping is paired over the trailed structures", C01.s4 if hasattr(C01, "s4") else C01.s17),
         ("explanations: direct bound facts name the right variable and direction", C17.l8),
